@@ -33,6 +33,7 @@ type step struct {
 type node struct {
 	e     *yang.Entry
 	tree  string // module at the root of the tree
+	mod   *yang.Module
 	steps []step
 	up    []*yang.Entry // ancestors, root first (excluding the module entry)
 }
@@ -90,13 +91,37 @@ func collect(ms *yang.Modules) []*node {
 				c := kids[k]
 				st := append(append([]step{}, steps...), step{k, nsModule(ms, c)})
 				nu := append(append([]*yang.Entry{}, up...), c)
-				out = append(out, &node{e: c, tree: m.Name, steps: st, up: nu})
+				out = append(out, &node{e: c, tree: m.Name, mod: m, steps: st, up: nu})
 				walk(c, st, nu)
 			}
 		}
 		walk(root, nil, nil)
 	}
 	return out
+}
+
+// denotes: the module that defines the start node means the target's tree (and not another revision
+// of the same module) by the prefix prefixesOf gives: itself under its own prefix; under an import
+// prefix the revision the import pins with revision-date, else the one registered under the bare
+// name.
+func denotes(ms *yang.Modules, start *yang.Entry, t *node) bool {
+	root := yang.RootNode(start.Node)
+	if root.BelongsTo != nil && root.BelongsTo.Name == t.tree {
+		return ms.Modules[t.tree] == t.mod
+	}
+	if root.BelongsTo == nil && root.Name == t.tree {
+		return root == t.mod
+	}
+	for _, im := range root.Import {
+		if im.Name == t.tree {
+			key := im.Name
+			if im.RevisionDate != nil {
+				key += "@" + im.RevisionDate.Name
+			}
+			return ms.Modules[key] == t.mod
+		}
+	}
+	return false
 }
 
 // prefixes available in the module that defines the start node: module name -> prefix.
@@ -146,7 +171,7 @@ func lookups(ms *yang.Modules, countOnly func(n int)) *fail {
 					}
 					parts = append(parts, p+":"+st.name)
 				}
-				if ok {
+				if ok && denotes(ms, s.e, t) {
 					path := "/" + strings.Join(parts, "/")
 					total++
 					if got := s.e.Find(path); got != t.e {
@@ -166,7 +191,7 @@ func lookups(ms *yang.Modules, countOnly func(n int)) *fail {
 				}
 			}
 			// relative, inside one tree
-			if s.tree == t.tree {
+			if s.mod == t.mod {
 				common := 0
 				for common < len(s.up) && common < len(t.up) && s.up[common] == t.up[common] {
 					common++
@@ -298,7 +323,7 @@ func replay(tier string, raw json.RawMessage) (bool, string, string) {
 func init() {
 	core.Register(&core.Prop{
 		ID: "C17", Variant: "plain", Shards: shards, Run: run, Replay: replay,
-		Rule:        "on every module set of the corpus that processes without error, the nodes of all module trees are collected by a walk over Dir and RPC.Input/Output (grafted nodes, copies from groupings, implicit cases, rpc/action input and output written and unwritten); for every ordered pair (start, target): Find of the absolute path whose steps carry the prefixes under which the module that defines the start node knows each step's namespace module (pairs needing a prefix that module does not import are outside the quantifier), Find of the relative path ('..' to the lowest common ancestor, then names) when both lie in one tree, and each of those paths with one step replaced by a name that names no child - must return the target by pointer identity, respectively nil. states = module sets; transitions = lookups performed",
+		Rule:        "on every module set of the corpus that processes without error, the nodes of all module trees are collected by a walk over Dir and RPC.Input/Output (grafted nodes, copies from groupings, implicit cases, rpc/action input and output written and unwritten); for every ordered pair (start, target): Find of the absolute path whose steps carry the prefixes under which the module that defines the start node knows each step's namespace module (pairs needing a prefix that module does not import are outside the quantifier; when several revisions of a module are loaded, the prefix means the module itself, or the revision the import pins or else the one registered under the bare name), Find of the relative path ('..' to the lowest common ancestor, then names) when both lie in one tree, and each of those paths with one step replaced by a name that names no child - must return the target by pointer identity, respectively nil. states = module sets; transitions = lookups performed",
 		Assumptions: []string{"only the first step's prefix selects a tree in the library; later prefixes are spelled as the RFC requires but not distinguished by it"},
 	})
 }
